@@ -92,13 +92,14 @@ def shard(binpath, seed, sh, n):
         if i % 3 == 0:
             # text-level variants around the document: each is judged on its own (one outcome over all channels)
             base = texts["plain"]
-            k = rng.randrange(14)
+            k = rng.randrange(17)
             tx, how = {
                 0: (base + "]", "trailing_bracket"), 1: (base + " x", "trailing_garbage"), 2: (base + base, "two_documents"),
                 3: (base + " \n\t\r\n", "trailing_whitespace"), 4: (base + ",", "trailing_comma"), 5: (base + "\x00", "trailing_nul"),
                 6: (" \n" + base, "leading_whitespace"), 7: ("\ufeff" + base, "leading_bom"), 8: (base[:max(1, len(base) - rng.randrange(1, 4))], "truncated"),
                 9: (base + "}", "trailing_brace"), 10: (base + " null", "trailing_value"), 11: (base + "//c", "trailing_comment"),
                 12: dup_member(base, d, False), 13: dup_member(base, d, True),
+                14: extra_number_member(base, d, rng, False), 15: extra_number_member(base, d, rng, True), 16: extra_number_member(base, d, rng, False),
             }[k]
             groups.append([len(cases)])
             cases.append({"op": "serde", "type": t, "text": tx, "meta": {"spelling": "text:" + how, "valid": False, "textmut": how}})
@@ -150,6 +151,24 @@ def dup_member(base, d, escaped):
     return (base[:-1] + "," + name + ":" + json.dumps(d[k], ensure_ascii=False) + "}", "duplicate_member" + ("_escaped" if escaped else ""))
 
 
+def extra_number_member(base, d, rng, nested):
+    """the document with one additional member that no decoder looks at, holding a number that is not a 64-bit integer
+    (fraction, exponent, beyond u64): at the top level, or inside the first object-valued member"""
+    if not isinstance(d, dict) or not base.endswith("}"):
+        return (base + " \n", "trailing_whitespace")
+    num = rng.choice(["1.5", "0.1", "-2.5e3", "1e2", "1E-7", "18446744073709551616", "-9223372036854775809", "3.0", "[1, 2.5]", '{"v": 0.5}'])
+    name = rng.choice(["x-unused", "zz_extra", "_comment"])
+    if nested:
+        for k, v in d.items():
+            if isinstance(v, dict):
+                d2 = dict(d)
+                inner = json.dumps(v, ensure_ascii=False)
+                inner = inner[:-1] + ("," if v else "") + json.dumps(name) + ":" + num + "}"
+                parts = [json.dumps(kk) + ":" + (inner if kk == k else json.dumps(vv, ensure_ascii=False)) for kk, vv in d2.items()]
+                return ("{" + ",".join(parts) + "}", "extra_number_member_nested")
+    return (base[:-1] + ("," if d else "") + json.dumps(name) + ":" + num + "}", "extra_number_member")
+
+
 def has_float(d):
     if isinstance(d, float):
         return True
@@ -175,5 +194,5 @@ def main(ctx):
         required=[f"all_channels_agree_ok:{t}" for t in ("metablock", "layout", "link", "pubkey", "rule", "step", "inspection", "statement", "predicate")] +
                  ["contains_rules:ok", "contains_timestamp:ok", "mutated:err", "text:trailing_bracket:err", "text:two_documents:err",
                   "text:trailing_whitespace:ok", "text:leading_whitespace:ok", "text:truncated:err", "history:after_failed_read:ok",
-                  "text:duplicate_member:err"],
+                  "text:duplicate_member:err", "text:extra_number_member:ok", "text:extra_number_member_nested:ok"],
         min_evals=10000)
